@@ -604,6 +604,12 @@ func (s *sim) runFileFault(trunc bool) {
 		j, skipPad = s.enumPick(mode)
 	} else {
 		s.cfg, s.class = drawConfig(s.src, s.ctx.Param("big", "1") == "1", true)
+		if s.ctx.Param("multi", "0") == "1" {
+			// files of several blocks only (a part of their own: they are slow to
+			// write and read, the mixed part draws them rarely)
+			s.cfg.N = s.src.Range(1, 2)*blockSize + drawRem(s.src, -3, 3)
+			s.class = 4
+		}
 	}
 	s.evCfg()
 	payload, file, _, ok := s.produce(filePath)
